@@ -15,7 +15,7 @@ package libseccomp
 //@   assigns nothing
 //@   ensures uint32(result) == uint32(a) & 0xffff
 
-//@ func pkg/seccomp/libseccomp.ToSeccompAction props C01
+//@ func pkg/seccomp/libseccomp.ToSeccompAction props C01 C03
 //@   arith bv
 //@   assigns nothing
 //@   ensures uint32(a) & 0xffff == 1 ==> uint32(result) == 0x7fff0000
